@@ -105,6 +105,7 @@ type retryParams struct {
 	Always bool           `json:"always,omitempty"`
 	Chunk  int            `json:"chunk,omitempty"`
 	Late   bool           `json:"late,omitempty"`
+	Slow   int            `json:"slow,omitempty"`
 	Mode   string         `json:"mode"` // single | pairs | random | steer | one
 	Part   int            `json:"part,omitempty"`
 	Of     int            `json:"of,omitempty"`
@@ -117,7 +118,7 @@ func (p retryParams) base() scen.Scenario {
 	if !ok {
 		panic("unknown workload " + p.W)
 	}
-	return scen.Scenario{Client: "reconnect", Cfg: p.Cfg, AlwaysResub: p.Always, Chunk: p.Chunk, LateWriteOK: p.Late, Pre: w.Pre, Steps: w.Steps, OnConnect: w.OnC, SlowActive: w.Slow}
+	return scen.Scenario{Client: "reconnect", Cfg: p.Cfg, AlwaysResub: p.Always, Chunk: p.Chunk, LateWriteOK: p.Late, SlowReturn: p.Slow, Pre: w.Pre, Steps: w.Steps, OnConnect: w.OnC, SlowActive: w.Slow}
 }
 
 func cfgName(c scen.BrokerCfg, always bool, chunk int, late bool) string {
@@ -151,7 +152,7 @@ func cfgs(methods, sessions []string, always []bool) []retryParams {
 		for _, s := range sessions {
 			for _, a := range always {
 				i++
-				out = append(out, retryParams{Cfg: scen.BrokerCfg{Method: m, Session: s}, Always: a, Chunk: []int{0, 1, 0, 3}[i%4], Late: i%3 == 0})
+				out = append(out, retryParams{Cfg: scen.BrokerCfg{Method: m, Session: s}, Always: a, Chunk: []int{0, 1, 0, 3}[i%4], Late: i%3 == 0, Slow: []int{0, 2, 0}[i%3]})
 			}
 		}
 	}
